@@ -368,11 +368,11 @@ static void case_history(Rng& rng, uint64_t index)
 
 static void setup()
 {
-	add_generator("rotation_3d", ctx().count(600000, 12000000), case_rotation3);
-	add_generator("rotation_2d", ctx().count(100000, 2000000), case_rotation2);
-	add_generator("spherical_with_axis", ctx().count(600000, 12000000), case_spherical_axis);
-	add_generator("spherical_plain", ctx().count(100000, 2000000), case_spherical_plain);
-	add_generator("angle", ctx().count(100000, 2000000), case_angle);
-	add_generator("call_histories", ctx().count(60000, 1200000), case_history);
+	add_generator("rotation_3d", ctx().count(600000, 96000000), case_rotation3);
+	add_generator("rotation_2d", ctx().count(100000, 16000000), case_rotation2);
+	add_generator("spherical_with_axis", ctx().count(600000, 96000000), case_spherical_axis);
+	add_generator("spherical_plain", ctx().count(100000, 16000000), case_spherical_plain);
+	add_generator("angle", ctx().count(100000, 16000000), case_angle);
+	add_generator("call_histories", ctx().count(60000, 9600000), case_history);
 }
 VERIF_MAIN("C16", setup)
